@@ -21,7 +21,7 @@ LEVEL = "fault_enumeration"
 RULE = (
     "cases = fault plans on a real local cluster: a job of 2-6 tasks (harness.genjob, with a requested output downstream of the "
     "victim), 1-2 hosts x 1-2 workers, and one fault: none; or the victim task's body raises (with a message, with an empty message, bare assert) / calls sys.exit(k in {0,1,3}) / "
-    "os._exit / SIGKILLs its own process, before producing any output, between two yields of a multi-output task, or after its last yield (all outputs published); or the harness "
+    "os._exit / SIGKILLs its own process / SIGTERMs or SIGKILLs its host's shm server while holding its inputs, before producing any output, between two yields of a multi-output task, or after its last yield (all outputs published); or the harness "
     "SIGKILLs/SIGTERMs a chosen helper process (worker i, data server, shm server of a chosen host) once the controller has seen k "
     "events. Oracle: run() ends within the deadline (a time-out is confirmed by a second run with doubled deadline before it counts); "
     "if the fault makes a requested output impossible run() ends with an exception; if it returns, every requested value equals the "
@@ -50,7 +50,8 @@ MANIFEST = {
     "note": "Fault enumeration over the generated plan space, not a proof; arbitrary crash points inside library code are not reached.",
 }
 
-KINDS = [("raise", None), ("raise_empty", None), ("assert", None), ("exit", 0), ("exit", 1), ("exit", 3), ("os_exit", 3), ("sigkill", None)]
+KINDS = [("raise", None), ("raise_empty", None), ("assert", None), ("exit", 0), ("exit", 1), ("exit", 3), ("os_exit", 3), ("sigkill", None),
+         ("term_shm", None), ("kill_shm", None)]
 
 
 @st.composite
@@ -130,7 +131,7 @@ def run_plan_checked(plan: dict, stats: Stats | None) -> tuple[bool, list[str]]:
         tags.append("verdict:" + out["verdict"])
         # a fault after the last yield happens when every output is already published: returning the right values is as acceptable
         # as failing the run
-        if f["where"] == "task" and f["at"] != "after" and reached and out["verdict"] == "returned":
+        if f["where"] == "task" and f["at"] != "after" and f["kind"] not in ("term_shm", "kill_shm") and reached and out["verdict"] == "returned":
             raise Violation(f"{what}: the victim never produced its outputs but run() returned normally with {out.get('outputs')}", "failure-swallowed")
         if out["verdict"] == "returned":
             job = build_job(plan["job"])
